@@ -3,7 +3,8 @@ From Model Require Import Front.
 From Spec Require Import RegexSpec.
 From Proofs Require Import RegexTotal RegexRoundTrip.
 From Spec Require Sem.
-From Proofs Require ResolveShape UnrollSem.
+From Proofs Require ResolveShape UnrollSem TotalRec.
+From Coq Require Import Arith.
 Local Open Scope N_scope.
 
 (* The regular expressions of the supported subset are the trees of Spec/RegexSpec.v: literal and
@@ -63,3 +64,18 @@ Example C14_witness :
                    (EPrim (LVar [95;50])))
     (ECons (ELoop 1 (-1) true [] (EPrim (LStr false false [99]))) ENil).
 Proof. split; [cbn; repeat split; try reflexivity; try exact I|]. split; reflexivity. Qed.
+
+(* non-vacuity of the quantifier theorem:  a+  (at least 1 'a'): the hypotheses hold on every text *)
+Example C14_quantifier_witness : forall text start defs,
+  let body := EPrim (LStr false false [97]) in
+  ResolveShape.plain_e body /\
+  (exists r g', resolve_expr (ELoop 1 (-1) false [] body) 0 init_gstate = GOk (r, g')) /\
+  resolve_expr body 0 init_gstate = GOk (XAtom (IMatchLit false false [97]), init_gstate) /\
+  UnrollSem.advances text start defs (XAtom (IMatchLit false false [97])) /\
+  UnrollSem.defined text start defs (XAtom (IMatchLit false false [97])).
+Proof.
+  intros text start defs body. split; [exact I|]. split; [eexists _, _; reflexivity|]. split; [reflexivity|]. split.
+  - intros s l H. pose proof (TotalRec.literal_consumes text start defs false false [97] s l H) as Hc.
+    eapply Forall_impl; [|exact Hc]. cbn. intros q Hq. apply Nat.neq_sym. apply Nat.lt_neq. exact Hq.
+  - intros s. eexists. constructor.
+Qed.
